@@ -7,7 +7,7 @@
 (* formulations of Grammar against ParseFn in every state, and (EmitOn)    *)
 (* prints one JSON line per state: the behaviours replayed into the code.  *)
 (***************************************************************************)
-EXTENDS Grammar, Json
+EXTENDS Grammar, ParseSteps, Json
 CONSTANTS N, E, EmitOn
 
 VARIABLE toks
@@ -24,6 +24,11 @@ Agree == /\ P.ok = Rec(toks)
 OkMeansAllConsumed == P.ok => P.pos = Len(toks) + 1
 \* the defect of the pinned parse(): a prefix is accepted (negative control, expected to be violated)
 PrefixNeverAccepted == ParsePrefix(toks).ok => P.ok
+
+\* ---- C02 (parsing part) -------------------------------------------------
+StepsAgree == LET s == ParseSt(toks) IN s.ok = P.ok /\ s.pos = P.pos
+StepsLinear == ParseStepBound(toks)
+EvalLinear == P.ok => EvalNodes(P.node) <= 2 * Len(toks)
 
 \* ---- C04 ---------------------------------------------------------------
 TreeOK == (P.ok /\ JuxFree(toks)) => P.node = RTree(toks, 1, Len(toks))
